@@ -223,7 +223,7 @@ def finish(ctx, level="proof", checker_cmd=None, extra_assumptions=()):
     obligations = len(ctx.obligations)
     discharged = sum(1 for o in ctx.obligations if o[1])
     for sig, text, what in ctx.known:
-        print("KNOWN-FINDING: property=%s %s [%s] (%s)" % (ctx.pid, text, sig, what))
+        print("KNOWN-FINDING: property=%s %s [%s] (%s)" % (ctx.pid, text, sig, what[:300]))
     rc = 0
     lines = []
     if ctx.violations:
